@@ -11,6 +11,8 @@ Monitors
   must still be excluded (persistence) and no event that was never excluded may be excluded
   (no spurious exclusion).
 """
+import warnings
+
 import numpy as np
 
 PROP = "C04"
@@ -116,6 +118,24 @@ def check_level(ctx, child, rng, where):
                         d = {"contour": i}
                         break
             else:
+                if type(cobj).__name__ == "ChildScalar":
+                    # the first access after a refresh is what fills the member's cache: let it
+                    # be one of the read-only forms a client uses (conversions to another
+                    # dtype, single events, reductions) before the plain read below
+                    form = int(rng.integers(0, 6))
+                    with np.errstate(all="ignore"), warnings.catch_warnings():
+                        warnings.simplefilter("ignore")
+                        if form == 0:
+                            np.asarray(cobj, dtype=np.float32)
+                        elif form == 1:
+                            np.array(cobj, dtype=np.int32)
+                        elif form == 2:
+                            np.asarray(cobj, dtype=np.float16)
+                        elif form == 3:
+                            cobj[int(rng.integers(0, n))]
+                        elif form == 4:
+                            np.nanmax(cobj)
+                    ctx.count(f"first_access_form[{form}]")
                 pe = np.asarray(pobj[:])[sel]
                 g = np.asarray(cobj[:])
                 if not dscmp.arr_equal(g, pe):
@@ -188,10 +208,16 @@ def install(ctx):
                 try:
                     d, lvl = self, 0
                     rng = _S.rng or np.random.default_rng(0)
+                    members = []
                     while d.format == "hierarchy":
-                        check_level(c, d, rng, {"level_from_youngest": lvl})
+                        members.append((d, lvl))
                         d = d.hparent
                         lvl += 1
+                    if rng.random() < 0.5:
+                        # oldest first: every member's features are first read as a child
+                        members.reverse()
+                    for d, lvl in members:
+                        check_level(c, d, rng, {"level_from_youngest": lvl})
                 except Exception as exc:
                     c.error("c04.contract", exc)
             return res
